@@ -116,14 +116,16 @@ func genC06(tier string) []Scenario {
 	// the outcome of an item may be an error Result returned with a nil error: it is that item's
 	// outcome all the same, at its position, on the sequential and on the pooled path
 	for _, c := range []int{0, 1, 2} {
-		add(batchScn{name: fmt.Sprintf("positional-error-results n=2 c=%d exec=ok|errResult|err", c), n: 2, c: c, shape: shResults, yield: c > 0, execMenu: okErrOrErrResultMenu, bound: 0})
+		for _, n := range []int{1, 2} {
+			add(batchScn{name: fmt.Sprintf("positional-error-results n=%d c=%d exec=ok|errResult|err", n, c), n: n, c: c, shape: shResults, yield: c > 0, execMenu: okErrOrErrResultMenu, bound: 0})
+		}
 	}
 	// stop-on-error and cancellation: post still sees every slot as item i's own outcome (or an
 	// error for an item that never ran), once, after everything that runs has settled
 	for _, c := range []int{0, 2} {
 		for _, n := range []int{2, 3} {
 			bd := 1
-			add(batchScn{name: fmt.Sprintf("positional-stopmode n=%d c=%d exec=ok|err", n, c), n: n, c: c, stop: true, shape: shResults, yield: c > 0, execMenu: okOrErrMenu, bound: bd})
+			add(batchScn{name: fmt.Sprintf("positional-stopmode n=%d c=%d exec=ok|nil|err", n, c), n: n, c: c, stop: true, shape: shResults, yield: c > 0, execMenu: okNilErrMenu, bound: bd})
 			if n == 2 || c == 0 {
 				add(batchScn{name: fmt.Sprintf("positional-cancelled n=%d c=%d exec=ok|err|nil", n, c), n: n, c: c, shape: shResults, yield: c > 0, execMenu: okNilErrMenu, bound: bd, cancel: cancelSpec{kind: 1, lazy: true}})
 			}
@@ -132,6 +134,12 @@ func genC06(tier string) []Scenario {
 	// the same node object run twice: nothing of the first run may show up in the second
 	for _, c := range []int{0, 2} {
 		add(batchScn{name: fmt.Sprintf("positional-two-runs n=2 c=%d exec=ok|err|nil", c), n: 2, c: c, shape: shResults, yield: c > 0, execMenu: okNilErrMenu, bound: 0, runs: 2})
+	}
+	// ... and a later run may have fewer (or more) items than an earlier one
+	add(batchScn{name: "positional-runs-of-different-size items=3,1,2 c=0 exec=ok|err", n: 3, nByRun: []int{3, 1, 2}, c: 0, shape: shResults, execMenu: okOrErrMenu, bound: 0, runs: 3})
+	add(batchScn{name: "positional-runs-of-different-size items=2,1 c=2 exec=ok|err", n: 2, nByRun: []int{2, 1}, c: 2, shape: shResults, yield: true, execMenu: okOrErrMenu, bound: 0, runs: 2})
+	if th {
+		add(batchScn{name: "positional-runs-of-different-size items=3,1,2 c=2 exec=ok|err", n: 3, nByRun: []int{3, 1, 2}, c: 2, shape: shResults, yield: true, execMenu: okOrErrMenu, bound: 0, runs: 3})
 	}
 	// a context deadline that passes while items are executing (each takes 1 s of virtual time)
 	for _, c := range []int{1, 2} {
@@ -328,6 +336,9 @@ func genC08(tier string) []Scenario {
 		n := 3*c + 2
 		sc := batchScn{name: fmt.Sprintf("limit-slow n=%d c=%d exec=1s", n, c), n: n, c: c, budget: 1, shape: shResults, execMenu: okMenu, postMenu: postX, bound: 0, chkLimit: true, execDur: time.Second}
 		out = append(out, sc.scenario())
+		// the same in stop-on-error mode (nothing fails: the mode alone must not change the limit)
+		sc2 := batchScn{name: fmt.Sprintf("limit-slow-stopmode n=%d c=%d exec=1s", n, c), n: n, c: c, stop: true, budget: 1, shape: shResults, execMenu: okMenu, postMenu: postX, bound: 0, chkLimit: true, execDur: time.Second}
+		out = append(out, sc2.scenario())
 	}
 	// items that fail their first attempt and wait before the retry still occupy their worker
 	for _, c := range []int{1, 2} {
